@@ -313,7 +313,7 @@ func (c Config) MarshalJSON() ([]byte, error) {
 				return nil, xerr.Wrap("host", ErrInvalidSetting)
 			}
 			v := (int(c[i+2]) | int(c[i+1])<<8) + i
-			if v > n || v < i {
+			if v+3 > n || v < i {
 				return nil, xerr.Wrap("host", ErrInvalidSetting)
 			}
 			b.WriteString(escape.JSON(string(c[i+3 : v+3])))
@@ -493,7 +493,7 @@ func (c Config) MarshalJSON() ([]byte, error) {
 				e = base64.NewEncoder(base64.StdEncoding, &b)
 				k = (int(c[i+2]) | int(c[i+1])<<8) + i
 			)
-			if k > n || k < i {
+			if k+3 > n || k < i {
 				return nil, xerr.Wrap("xor", ErrInvalidSetting)
 			}
 			e.Write(c[i+3 : k+3])
